@@ -300,3 +300,84 @@ pub fn stub_from_utf8(v: &[u8]) -> Result<&str, core::str::Utf8Error> {
         Err(core::str::from_utf8(&[0xC3u8, 0x28u8]).unwrap_err())
     }
 }
+
+// ---- S-GRID: a grid whose containment answers and values are arbitrary (environment of the
+// grid operators): `hit0` = contains at margin 0, `hit_half` = contains at margin 0.5.
+#[derive(Debug)]
+pub struct AnyGrid {
+    pub nbands: usize,
+    pub hit0: bool,
+    pub hit_half: bool,
+    pub value: Coor4D,
+}
+impl Grid for AnyGrid {
+    fn bands(&self) -> usize {
+        self.nbands
+    }
+    fn contains(&self, _coord: &Coor4D, margin: f64) -> bool {
+        if margin == 0.0 {
+            self.hit0
+        } else {
+            self.hit_half
+        }
+    }
+    fn at(&self, coord: &Coor4D, margin: f64) -> Option<Coor4D> {
+        if self.contains(coord, margin) {
+            Some(self.value)
+        } else {
+            None
+        }
+    }
+}
+
+/// Arbitrary containment answers (monotone in the margin), value elements in D-SMALL for the
+/// bands the grid has and 0 for the others (as BaseGrid::at delivers)
+pub fn any_anygrid(nbands: usize) -> AnyGrid {
+    let hit0: bool = nd();
+    let hit_half: bool = nd();
+    kani::assume(!hit0 || hit_half);
+    let mut v = [0f64; 4];
+    let mut k = 0;
+    while k < nbands && k < 4 {
+        v[k] = small_f();
+        k += 1;
+    }
+    AnyGrid { nbands, hit0, hit_half, value: Coor4D(v) }
+}
+
+/// S-GEO: stand-in for `GeoCart::geographic` (a page of libm calls): the identity. The grid
+/// operators only use it to find the lookup position and the epoch.
+pub fn stub_geographic<C: CoordinateTuple>(_e: &Ellipsoid, c: &C) -> Coor4D {
+    let (x, y, z, t) = c.xyzt();
+    Coor4D([x, y, z, t])
+}
+
+pub fn stub_ellps_default(_p: &ParsedParameters, _index: usize) -> Ellipsoid {
+    Ellipsoid::default()
+}
+
+// ---- S-UF-SMALL: libm entry points as fixed, arbitrary-looking functions of the argument bits
+// with values in {-3..3} (deterministic, so Kani's playback stays aligned and relational
+// obligations see consistent results). Nothing numeric is claimed under these stubs.
+fn mix(b: u64, k: u64) -> f64 {
+    let h = (b ^ (b >> 29) ^ (b >> 47)).wrapping_mul(0x9E37_79B9_7F4A_7C15 ^ k);
+    ((h >> 59) % 7) as i8 as f64 - 3.0
+}
+pub fn uf_unary(x: f64) -> f64 {
+    mix(x.to_bits(), 1)
+}
+pub fn uf_unary_nonneg(x: f64) -> f64 {
+    mix(x.to_bits(), 2).abs()
+}
+pub fn uf_binary(x: f64, y: f64) -> f64 {
+    mix(x.to_bits() ^ y.to_bits().rotate_left(17), 3)
+}
+pub fn uf_binary_nonneg(x: f64, y: f64) -> f64 {
+    mix(x.to_bits() ^ y.to_bits().rotate_left(17), 4).abs()
+}
+pub fn uf_powi(x: f64, n: i32) -> f64 {
+    mix(x.to_bits() ^ (n as u64), 5)
+}
+pub fn uf_sin_cos(x: f64) -> (f64, f64) {
+    (mix(x.to_bits(), 6), mix(x.to_bits(), 7))
+}
